@@ -295,4 +295,20 @@ theorem Mode.factor_ne_zero (c : Rat) (hc : c ≠ 0) (m : Mode) : m.factor c ≠
 
 theorem EMode.swap_toMode (em : EMode) : em.swap.toMode = em.toMode.swap := by cases em <;> rfl
 
+/-! ### lemma-level forms used by the sift layer -/
+
+theorem interpEnvelope_smul_pos' (I : Interp) (hI : I.Homogeneous) (c : Rat) (hc : 0 < c) (em : EMode) (w : Nat)
+    (parab : Bool) (x : Sig) :
+    interpEnvelope I em w parab (Sig.smul c x) = (interpEnvelope I em w parab x).smul c :=
+  interpEnvelope_of_padded I hI em em w parab x _ c (ne_of_gt hc) (smul_length c x)
+    (paddedExtrema_of_extrema w em.toMode em.toMode parab x _ c (smul_length c x) (extrema_smul_pos em.toMode parab c hc x))
+
+theorem interpEnvelope_smul_neg' (I : Interp) (hI : I.Homogeneous) (c : Rat) (hc : c < 0) (w : Nat) (parab : Bool) (x : Sig) :
+    interpEnvelope I .upper w parab (Sig.smul c x) = (interpEnvelope I .lower w parab x).smul c ∧
+    interpEnvelope I .lower w parab (Sig.smul c x) = (interpEnvelope I .upper w parab x).smul c :=
+  ⟨interpEnvelope_of_padded I hI .upper .lower w parab x _ c (ne_of_lt hc) (smul_length c x)
+      (paddedExtrema_of_extrema w .peaks .troughs parab x _ c (smul_length c x) (extrema_smul_neg .peaks parab c hc x)),
+   interpEnvelope_of_padded I hI .lower .upper w parab x _ c (ne_of_lt hc) (smul_length c x)
+      (paddedExtrema_of_extrema w .troughs .peaks parab x _ c (smul_length c x) (extrema_smul_neg .troughs parab c hc x))⟩
+
 end Extrema
